@@ -340,7 +340,6 @@ package kvql
 //@   ensures[C02] covers: old(covers(l, k)) && old(covers(r, k)) ==> covers(res, k)
 //@   ensures[C18] sub: covers(res, k) ==> old(covers(l, k)) && old(covers(r, k))
 //@   ensures[C18] sub2: sub2(res, l, k, k2)
-//@   ensures[C18] sub2: sub2(res, l, k, k2)
 //@   ensures[C18] disjoint: res.scanTp == EMPTY || res.scanTp == MGET
 //@   assigns nothing
 //@   loop 0 (k)
